@@ -162,6 +162,11 @@ macro_rules! driver {
                a.push(out);
                out.push(RelIndexRead::is_empty(&ind) as u128);
             }
+            out.push(crate::le_flag(|| full.to_rel_index(v).len_estimate()));
+            out.push(crate::le_flag(|| none.to_rel_index(v).len_estimate()));
+            out.push(crate::le_flag(|| i0.to_rel_index(v).len_estimate()));
+            out.push(crate::le_flag(|| i01.to_rel_index(v).len_estimate()));
+            out.push(crate::le_flag(|| i02.to_rel_index(v).len_estimate()));
             if $has_rev {
                let i1: I1 = Default::default();
                let i2: I2 = Default::default();
@@ -228,6 +233,9 @@ macro_rules! driver {
                   a.push(out);
                   out.push(RelIndexRead::is_empty(&ind) as u128);
                }
+               out.push(crate::le_flag(|| i1.to_rel_index(v).len_estimate()));
+               out.push(crate::le_flag(|| i2.to_rel_index(v).len_estimate()));
+               out.push(crate::le_flag(|| i12.to_rel_index(v).len_estimate()));
             }
          }
       }
